@@ -122,6 +122,7 @@ func c17Witnesses() []c17Witness {
 		{"F17-C17-second-before-overwrites-backlink", c17Case{Pipeline: "create", Ops: []regOp{
 			c17R("u1", "", "u3"), c17R("u4", "", ""), c17R("u2", "u5", ""), c17R("u3", "u5", ""), c17R("u5", "u4", "")}}},
 		{"F18-C17-star-callback-pulled-forward", c17Case{Pipeline: "create", Ops: []regOp{c17R("u3", "", "*"), c17R("u2", "", "u3"), c17R("u1", "", "")}}},
+		{"F19-C17-duplicate-star-records-reshuffled", c17Case{Pipeline: "create", Ops: []regOp{c17R("u1", "*", ""), c17R("u1", "", "*"), {Op: "replace", Name: "gorm:create"}}}},
 	}
 	for i := range w {
 		for j := range w[i].Case.Ops {
